@@ -8,7 +8,7 @@
    DESIGN.md. *)
 From stdpp Require Import base list option numbers.
 From Incr.Model Require Import Base Live Engine Api.
-From Incr.Proofs Require Import Pres RchInv FrameRchInv.
+From Incr.Proofs Require Import Pres Safe RchInv FrameRchInv FrameNoHeapPanic Histories.
 
 (* [rch_inv s]: a node occurs in queue h of the recompute heap exactly when its
    height_in_recompute_heap cell says h (so a cell of -1 means "in no queue"), and no queue lists a
@@ -33,6 +33,11 @@ Theorem C11_fresh_state_is_consistent :
   forall max_height dbg, rch_inv (init_state max_height dbg).
 Proof. exact rch_inv_init. Qed.
 
+(* so: every state of every history of a debug build *)
+Theorem C11_recompute_heap_consistent_in_every_history :
+  forall fuel max_height ops, Forall (fun e => rch_inv e.2) (run_history fuel max_height true ops).
+Proof. exact history_rch_inv. Qed.
+
 (* non-vacuity: a history that inserts, removes, pops and re-heights heap entries, one op panicking *)
 Example C11_nonvacuous :
   let h := [OpVar 1; OpMap 2 [] [0%nat]; OpMap 2 [EPanic] [1%nat]; OpObserve 1; OpStabilise; OpSet 0 3; OpObserve 2;
@@ -45,3 +50,4 @@ Proof. vm_compute. reflexivity. Qed.
 Print Assumptions C11_heap_operations_keep_the_heap_consistent.
 Print Assumptions C11_recompute_heap_consistent_along_every_history.
 Print Assumptions C11_fresh_state_is_consistent.
+Print Assumptions C11_recompute_heap_consistent_in_every_history.
